@@ -23,7 +23,11 @@ SEP = b'\n%%%%\n'
 # worker -> target assignment (16 workers)
 ASSIGN = ['fz_parse'] * 9 + ['fz_dtd', 'fz_dtd', 'fz_xsd', 'fz_xsd', 'fz_xsd', 'fz_regex', 'fz_xsvalue']
 DICT = {'fz_parse': 'xml.dict', 'fz_dtd': 'xml.dict', 'fz_xsd': 'xsd.dict', 'fz_regex': 'regex.dict', 'fz_xsvalue': None}
-KNOWN = {}      # finding id -> regex on the sanitizer/oracle report (for known findings; see known_findings.json)
+# finding id -> regex on the sanitizer/oracle report (known findings; see known_findings.json).  Both classes are excluded from the campaigns by
+# construction (LSan suppression file / input filter in fz_regex, counted) and their witnesses are replayed without the exclusion on every run.
+KNOWN = {'C01-dtd-contentspec-leak': r'LeakSanitizer: detected memory leaks[^\n]*DTDScanner::scan(Children|Mixed)',
+         'C01-regex-nested-closure-recursion': r'stack-overflow[^\n]*RegularExpression::'}
+SUPP = os.path.join(xv.VERIF, 'harness', 'lsan_known.supp')
 
 def cfg_suffix(i):
     """9 configuration bytes as fz_parse consumes them from the end: [steps, enc, chunk, lowwater, bits_lo, bits_hi, val, scanner, api]"""
@@ -73,6 +77,7 @@ def run_fuzz(target, corpus, art, seconds, seed, log):
     if d: args.append('-dict=' + os.path.join(xv.VERIF, 'dict', d))
     env = dict(os.environ); env.update(xv.ASAN_ENV)
     env['ASAN_OPTIONS'] = 'detect_leaks=1:abort_on_error=0:allocator_may_return_null=1:symbolize=1:handle_segv=1:quarantine_size_mb=32:detect_stack_use_after_return=0'
+    env['LSAN_OPTIONS'] = 'suppressions=%s:print_suppressions=0' % SUPP
     with open(log, 'wb') as lf:
         # libFuzzer stops at the first crash; restart until the time budget is used, so the search continues behind a finding
         t_end = time.time() + seconds; rounds = 0; execs = 0
@@ -115,13 +120,15 @@ def report_of(log_bytes):
     frames = re.findall(r'#\d+ 0x[0-9a-f]+ in (xercesc_4_0::[^\s(]+)', txt)[:4]
     return head + ' @ ' + ' < '.join(frames), txt[-6000:]
 
-def replay_input(target, data, timeout=120, libfuzzer_timeout=100):
+def replay_input(target, data, timeout=120, libfuzzer_timeout=100, strict=False):
     """-> (ok, detail, kind)  kind in ok|crash|timeout"""
     d = tempfile.mkdtemp(prefix='verif.c01.')
     try:
         f = os.path.join(d, 'in'); open(f, 'wb').write(data)
         env = dict(os.environ); env.update(xv.ASAN_ENV)
         env['ASAN_OPTIONS'] = 'detect_leaks=1:abort_on_error=0:allocator_may_return_null=1:symbolize=1:handle_segv=1:detect_stack_use_after_return=0'
+        if strict: env['XV_NO_FILTER'] = '1'; env.pop('LSAN_OPTIONS', None)     # known-finding witness: no suppression, no input filter
+        else: env['LSAN_OPTIONS'] = 'suppressions=%s:print_suppressions=0' % SUPP
         try:
             p = subprocess.run([xv.harness_path(target), '-timeout=%d' % libfuzzer_timeout, '-rss_limit_mb=8000', '-artifact_prefix=' + d + '/', f],
                                stdout=subprocess.DEVNULL, stderr=subprocess.PIPE, env=env, timeout=timeout + 60)
@@ -181,7 +188,7 @@ def replay(case, ctx):
             if not ok and kind == 'crash': return False, 'config %d: %s' % (i, detail)
         return True, 'ok'
     data = base64.b64decode(case['input_b64'])
-    ok, detail, kind = replay_input(case['target'], data)
+    ok, detail, kind = replay_input(case['target'], data, strict=bool(case.get('known')))
     if ok: return True, 'ok'
     if kind in ('timeout', 'oom') and not case.get('hang'): return True, 'inconclusive: ' + kind
     if kind == 'oom': return True, 'inconclusive: oom'
@@ -191,3 +198,10 @@ def classify(case, detail):
     for fid, rx in KNOWN.items():
         if re.search(rx, detail): return fid
     return None
+
+def known_witnesses():
+    out = []
+    for fid in KNOWN:
+        p = os.path.join(xv.VERIF, 'regress-known', 'C01', fid + '.json')
+        if os.path.exists(p): out.append((fid, json.load(open(p))['case']))
+    return out
